@@ -191,6 +191,8 @@ class H11Protocol:
                 elif isinstance(event, Data):
                     # WebSocket pass through
                     await self.stream.handle(event)
+                    if getattr(self.stream, "closed", False):
+                        await self._maybe_recycle()  # Rejected, e.g. data before acceptance
 
     async def _create_stream(self, request: h11.Request) -> None:
         upgrade_value = ""
@@ -250,6 +252,10 @@ class H11Protocol:
         )
         self.keep_alive_requests += 1
         await self.context.mark_request()
+        if getattr(self.stream, "closed", False):
+            # The request was rejected (and answered) without an
+            # app, e.g. an unknown server name.
+            await self._maybe_recycle()
 
     async def _send_h11_event(self, event: H11SendableEvent) -> None:
         try:
